@@ -17,6 +17,9 @@
 #include "../Util/SimpleRandom.h"
 #include "UpperHessenbergQR.h"
 #include "DoubleShiftQR.h"
+#ifdef YIXUAN_SPECTRA_VERIF
+#include "../Util/VerifHooks.h"
+#endif
 
 namespace Spectra {
 
@@ -55,6 +58,16 @@ protected:
     Matrix m_fac_H;      // H matrix in the Arnoldi factorization
     Vector m_fac_f;      // residual in the Arnoldi factorization
     RealScalar m_beta;   // ||f||, B-norm of f
+
+#ifdef YIXUAN_SPECTRA_VERIF
+    void verif_notify(int event, Index i, RealScalar beta, RealScalar aux) const
+    {
+        verif::FacView view = {event, long(m_n), long(m_m), long(m_k), long(i),
+                               m_fac_V.data(), m_fac_H.data(), m_fac_f.data(),
+                               static_cast<long double>(beta), static_cast<long double>(aux)};
+        verif::notify(view);
+    }
+#endif
 
     // Given orthonormal basis V (w.r.t. B), find a nonzero vector f such that (V^H)Bf = 0
     // With rounding errors, we hope ||(V^H)Bf|| < eps * ||f||
@@ -105,9 +118,16 @@ protected:
 
             // If the condition is satisfied, simply return
             // Otherwise, go to the next iteration and try a new random vector
+#ifdef YIXUAN_SPECTRA_VERIF
+            if (ortho_err < m_eps * fnorm)
+                verif_notify(verif::EvExpandBasis, V.cols(), fnorm, RealScalar(1));
+#endif
             if (ortho_err < m_eps * fnorm)
                 return;
         }
+#ifdef YIXUAN_SPECTRA_VERIF
+        verif_notify(verif::EvExpandBasis, V.cols(), fnorm, RealScalar(0));
+#endif
     }
 
 public:
@@ -177,6 +197,9 @@ public:
 
         // Indicate that this is a step-1 factorization
         m_k = 1;
+#ifdef YIXUAN_SPECTRA_VERIF
+        verif_notify(verif::EvInit, 0, m_beta, RealScalar(0));
+#endif
     }
 
     // Arnoldi factorization starting from step-k
@@ -257,6 +280,9 @@ public:
                 // next iteration.
                 if (m_beta < beta_thresh)
                 {
+#ifdef YIXUAN_SPECTRA_VERIF
+                    verif_notify(verif::EvForcedZero, i, m_beta, ortho_err);
+#endif
                     m_fac_f.setZero();
                     m_beta = RealScalar(0);
                     break;
@@ -273,10 +299,17 @@ public:
                 ortho_err = Vf.head(i1).cwiseAbs().maxCoeff();
                 count++;
             }
+#ifdef YIXUAN_SPECTRA_VERIF
+            if (ortho_err > m_eps * m_beta)
+                verif_notify(verif::EvReorthGaveUp, i, m_beta, ortho_err);
+#endif
         }
 
         // Indicate that this is a step-m factorization
         m_k = to_m;
+#ifdef YIXUAN_SPECTRA_VERIF
+        verif_notify(verif::EvExtended, from_k, m_beta, RealScalar(0));
+#endif
     }
 
     // Apply H -> Q'HQ, where Q is from a double shift QR decomposition
@@ -321,6 +354,9 @@ public:
         Vector fk = m_fac_f * Q(m_m - 1, m_k - 1) + m_fac_V.col(m_k) * m_fac_H(m_k, m_k - 1);
         m_fac_f.swap(fk);
         m_beta = m_op.norm(m_fac_f);
+#ifdef YIXUAN_SPECTRA_VERIF
+        verif_notify(verif::EvCompressed, m_k, m_beta, RealScalar(0));
+#endif
     }
 };
 
